@@ -3,10 +3,14 @@
 # seeded/matrix.tsv and seeded/notes.json (what had to be strengthened).
 import json, glob, os, re
 rows = {}
+counts = {}
 for l in open('/verif/seeded/matrix.tsv'):
     f = l.rstrip('\n').split('\t')
     if len(f) >= 3:
         rows.setdefault(f[0], {})[f[1]] = f[2]
+        m = re.search(r'violations=(\d+)', f[3] if len(f) > 3 else '')
+        if m:
+            counts[(f[0], f[1])] = int(m.group(1))
 notes = json.load(open('/verif/seeded/notes.json')) if os.path.exists('/verif/seeded/notes.json') else {}
 out = []
 out.append('## 9. Seeded changes and the checks that catch them\n')
@@ -17,13 +21,19 @@ meta.json}` and applied with `git -C /repo apply`; `tools/seedrun.sh <patch> <ID
 the named checks and restores the tree; `tools/seedmatrix.sh` runs them all and writes `seeded/matrix.tsv`
 (`tools/seedrun_wt.sh` / `tools/seedmatrix_par.sh` do the same on scratch worktrees through `VERIF_REPO`, leaving `/repo`
 alone). Round 1 = ids ending in a / b, round 2 (authors were told what round 1 had tried and asked for something
-different) = c / d, round 3 = e / f and round 4 = g / h (each told everything tried before, asked for subtler changes in
-places nobody had touched; rounds 3 and 4 were written against the repaired tree). Patches whose context later repairs
-moved were re-created on the repaired tree (`patch.orig.diff` = as delivered).
+different) = c / d, round 3 = e / f, round 4 = g / h, round 5 = i / j and round 6 = k / l (each told everything tried
+before, asked for subtler changes in places nobody had touched - from round 5 on for changes that need an interleaving,
+a crash point, a history or a non-default configuration to show; rounds 3 to 6 were written against the tree as repaired
+by then; the demonstrations of round 6 are runnable and were re-run by me, 8.8). Patches whose context later repairs moved
+were re-created on the repaired tree (`patch.orig.diff` = as delivered). Every `meta.json` carries, under `confirmed`,
+what I ran myself for that seed (`tools/seedconfirm.py`: applies to the current tree, builds, pinned suite passes) and
+the verdicts of the checks.
 
 "first run" is the verdict of the property's own quick check as it stood when the seed arrived; where that was a miss the
-check was strengthened (never by looking at anything but the demonstration's *class* of input) and the row says how. The
-last column lists other checks that also catch the change at the quick tier (only a few related ones were tried).\n''')
+check was strengthened (never by looking at anything but the demonstration's *class* of input) and the row says how.
+"now" is the own check's verdict in the last full matrix, with the number of distinct shrunk violations its shards
+reported (one or two means a marginal catch). The last column lists other checks that also catch the change at the
+quick tier (only the related ones named in the seed's `also` file were tried).\n''')
 out.append('| seed | files | what the change does | first run | now | strengthening | also caught by |')
 out.append('|---|---|---|---|---|---|---|')
 n = caught = first_missed = 0
@@ -42,7 +52,11 @@ for d in sorted(glob.glob('/verif/seeded/C*/')):
     nt = notes.get(s, {})
     first = nt.get('first', 'caught' if own == 'CAUGHT' else own.lower())
     also = ', '.join(k for k, v in sorted(r.items()) if k != pid and v == 'CAUGHT')
-    out.append(f"| {s} | {files} | {summ} | {first} | {own.lower()} | {nt.get('how', '')} | {also} |")
+    how = nt.get('how', '')
+    if nt.get('later'):
+        how = (how + ' Later: ' if how else 'Later: ') + nt['later']
+    now = own.lower() + (f" ({counts[(s, pid)]})" if (s, pid) in counts and own == 'CAUGHT' else '')
+    out.append(f"| {s} | {files} | {summ} | {first} | {now} | {how} | {also} |")
     n += 1; caught += own == 'CAUGHT'; first_missed += first == 'missed'
 out.append('')
 out.append(f'{n} seeded changes; {caught} are caught by their property\'s quick check now; {first_missed} were missed when they arrived and led to the strengthening described. '
